@@ -15,8 +15,10 @@ from harness.engine import tlc as T
 
 SPEC = os.path.join(T.SPECS, "Switches")
 SWITCHES = ["-q", "--quiet", "-v", "-vv", "-vvv", "--ansi", "--no-ansi", "-n", "--no-interaction", "-h", "--help", "-V", "--version"]
-CMD_IDS = ["pkg", "srv", "srv add", "srv list", "top", "grp", "grp one", "lazy", "help"]
+HUB_SUBS = ["n", "q", "h", "v", "V", "quiet", "ansi", "no-ansi", "help", "version", "verbose", "no-interaction"]
+CMD_IDS = ["pkg", "srv", "srv add", "srv list", "top", "grp", "grp one", "lazy", "hub", "help"] + ["hub " + x for x in HUB_SUBS]
 TAG = re.compile(r"\[T(\d)\]")
+INPUT = "n\nbob\na\n"  # what the user types; the input ends after it (no question can wait for more)
 _ENV = {}
 
 
@@ -32,6 +34,7 @@ class Rec(object):
         self.built = 0  # how often the handler factory of `lazy` ran
         self.seen = {"ran": False, "quiet": False, "level": 0, "inter": True}
         self.answer = "none"
+        self.answer2 = "none"
         self.args = []
 
 
@@ -48,7 +51,19 @@ def _env():
     from clikit.config import DefaultApplicationConfig
     from clikit.io.input_stream import StringInputStream
     from clikit.io.output_stream import BufferedOutputStream
-    from clikit.ui.components import ConfirmationQuestion, NameVersion
+    import clikit.ui.components.question as qmod
+    from clikit.ui.components import ChoiceQuestion, ConfirmationQuestion, NameVersion, Question
+
+    class NoStty(object):
+        """stands in for `subprocess` inside question.py: no stty is started, the line-reading path is taken"""
+
+        def call(self, *a, **k):
+            raise OSError("stty is not reachable")
+
+        check_output = call
+
+    if hasattr(qmod, "subprocess"):
+        qmod.subprocess = NoStty()
     from clikit.ui.help import ApplicationHelp, CommandHelp
 
     LEVELS = [flags.NORMAL, flags.VERBOSE, flags.VERY_VERBOSE, flags.DEBUG]
@@ -68,11 +83,17 @@ def _env():
             for k, f in enumerate(LEVELS):
                 io.write_line("<info>[T%d]</info>" % (k + 1), f)
                 io.error_line("<info>[T%d]</info>" % (k + 1), f)
-            ans = ConfirmationQuestion("Sure?", True).ask(io)
-            REC.answer = "default" if ans is True else ("typed" if ans is False else "other")
             REC.seen = {"ran": True, "quiet": bool(io.is_quiet()),
                         "level": int(bool(io.is_verbose())) + int(bool(io.is_very_verbose())) + int(bool(io.is_debug())),
                         "inter": bool(io.is_interactive())}
+            ans = ConfirmationQuestion("Sure?", True).ask(io)
+            REC.answer = "default" if ans is True else ("typed" if ans is False else "other")
+            # two questions WITHOUT a default: not interactive -> None, nothing read, nothing asked
+            name = Question("Name?").ask(io)
+            pick = ChoiceQuestion("Pick", ["a", "b"])
+            pick.set_max_attempts(1)
+            pick = pick.ask(io)
+            REC.answer2 = "default" if (name, pick) == (None, None) else ("typed" if (name, pick) == ("bob", "a") else "other")
             vals = []
             for name in command.args_format.get_arguments():
                 v = args.argument(name)
@@ -81,6 +102,9 @@ def _env():
                 elif v is not None:
                     vals.append(str(v))
             REC.args = vals
+            if REC.beh == "meddle":  # the handler plays with the I/O of its own run
+                io.set_quiet(not io.is_quiet())
+                io.set_verbosity(LEVELS[3])
             if REC.beh == "raise":
                 raise RuntimeError("boom")
             return 3 if REC.beh == "code" else 0
@@ -121,6 +145,14 @@ def _env():
                 s.set_description("The one command of the group")
                 s.add_argument("rest", multi, "More values")
                 s.set_handler(Handler("grp one"))
+        with c.command("hub") as k:  # sub-commands called like the switches' long and short names
+            k.set_description("Has sub-commands named like the switches")
+            k.add_argument("rest", multi, "More values")
+            k.set_handler(Handler("hub"))
+            for x in HUB_SUBS:
+                with k.sub_command(x) as s:
+                    s.set_description("Sub-command " + x)
+                    s.set_handler(Handler("hub " + x))
         with c.command("lazy") as k:  # the handler is built on demand
             k.set_description("Builds its handler late")
             k.add_argument("rest", multi, "More values")
@@ -160,12 +192,28 @@ def tokens_of(units):
 
 def streams_for(kind):
     E = _env()
-    return (E["AnsiBuf"]() if kind in ("both", "out") else E["Buf"](), E["AnsiBuf"]() if kind == "both" else E["Buf"]())
+    return (E["AnsiBuf"]() if kind in ("both", "out") else E["Buf"](), E["AnsiBuf"]() if kind in ("both", "err") else E["Buf"]())
 
 
 def raw_args(tokens, form):
     E = _env()
-    return E["StringArgs"](" ".join(tokens)) if form == "string" else E["ArgvArgs"](["app"] + list(tokens))
+    if form == "string":  # an empty token has to be written with quotes
+        return E["StringArgs"](" ".join(t if t else "''" for t in tokens))
+    return E["ArgvArgs"](["app"] + list(tokens))
+
+
+class AppBox(object):
+    """ONE application object serving several runs; history = what was run on it so far (for the replay file)"""
+
+    def __init__(self):
+        self.history = []
+        self.failed = ""
+        try:
+            self.app = _env()["make_app"]()
+        except KeyboardInterrupt:
+            raise
+        except BaseException as e:  # noqa: building the application is a step like any other
+            self.app, self.failed = None, type(e).__name__
 
 
 def pages_for(app, tokens, kind, form):
@@ -199,37 +247,49 @@ def esc_of(text):
     return 0 if not text else (2 if "\x1b" in text else 1)
 
 
-def observe(units, beh, kind, form="string"):
+def observe(units, beh, kind, form="string", box=None):
     E = _env()
     tokens = tokens_of(units)
-    app = E["make_app"]()  # a fresh application per run: nothing is carried from run to run (that is C17's subject)
+    box = box or AppBox()
+    box.history.append({"units": units, "beh": beh, "streams": kind, "form": form})
     REC.reset()
     REC.beh = beh
     out, err = streams_for(kind)
-    inp = E["In"]("n\n")
-    exc = ""
-    try:
-        status = app.run(raw_args(tokens, form), inp, out, err)
-    except KeyboardInterrupt:
-        raise
-    except BaseException as e:  # noqa: every exception kind is an observation
-        status, exc = -1, type(e).__name__
+    inp = E["In"](INPUT)
+    exc, same_args = box.failed, True
+    status = -1
+    if box.app is not None:
+        try:
+            args = raw_args(tokens, form)
+            before = (list(args.tokens), list(args.option_tokens))
+            status = box.app.run(args, inp, out, err)
+            same_args = (list(args.tokens), list(args.option_tokens)) == before
+        except KeyboardInterrupt:
+            raise
+        except BaseException as e:  # noqa: every exception kind is an observation
+            status, exc = -1, type(e).__name__
     so, se = out.fetch(), err.fetch()
-    left = inp.read_line()
+    left = inp.read(1000)
     left = left.decode() if isinstance(left, bytes) else left
     if REC.calls:
         page = "n/a"
     elif not so:
         page = "none"
     else:
-        page = pages_for(app, tokens, kind, form).get(so, "other")
+        try:
+            page = pages_for(box.app, tokens, kind, form).get(so, "other")
+        except T.MachineryError:
+            raise
+        except Exception:  # noqa: the reference pages cannot be rendered on this library: no page can be recognised
+            page = "other"
     return {
         "status": status if isinstance(status, int) and not isinstance(status, bool) else -2, "exc": exc,
         "calls": list(REC.calls),
         "outTags": sorted({int(x) for x in TAG.findall(so)}), "errTags": sorted({int(x) for x in TAG.findall(se)}),
         "outEsc": esc_of(so), "errEsc": esc_of(se), "io": dict(REC.seen), "page": page, "answer": REC.answer,
-        "consumed": 0 if left == "n\n" else (1 if left == "" else 2), "args": list(REC.args), "built": REC.built,
-        "outId": intern(so), "errId": intern(se),
+        "answer2": REC.answer2,
+        "consumed": INPUT.count("\n") - left.count("\n") if INPUT.endswith(left) else -1, "args": list(REC.args), "built": REC.built,
+        "argsSame": bool(same_args), "outId": intern(so), "errId": intern(se),
     }
 
 
@@ -237,10 +297,11 @@ def is_swlit(u):
     return u["k"] == "lit" and u["t"][0] in SWITCHES
 
 
-def event(units, beh, kind, form="string"):
-    obs = observe(units, beh, kind, form)
+def event(units, beh, kind, form="string", box=None):
+    box = box or AppBox()
+    obs = observe(units, beh, kind, form, box)
     has = any(is_swlit(u) for u in units)
-    base = observe([u for u in units if not is_swlit(u)], beh, kind, form) if has else obs
+    base = observe([u for u in units if not is_swlit(u)], beh, kind, form, box) if has else obs
     return {"units": units, "beh": beh, "streams": kind, "obs": obs, "hasBase": has, "base": base}
 
 
@@ -250,6 +311,8 @@ def same(exp, o):
 
 # ---------------------------------------------------------------------------------- spec -> code
 class Replayer(object):
+    WINDOW = 8  # so many TLC runs share one application object (the model keeps nothing between runs)
+
     def __init__(self, ctx):
         self.ctx = ctx
         self.n = 0
@@ -258,14 +321,13 @@ class Replayer(object):
         self.sampled = []
         self.cats = {}
         self.first = None
+        self.box = None
 
-    def __call__(self, line):
-        rec = T.parse_emit(line)
-        if rec is None:
-            return False
+    def one(self, rec, box):
         units, beh, kind = rec["units"], rec["beh"], rec["streams"]
         form = "argv" if self.n % 2 else "string"
-        ev = event(units, beh, kind, form)
+        hist = list(box.history)
+        ev = event(units, beh, kind, form, box)
         self.n += 1
         self.ctx.count()
         toks = tokens_of(units)
@@ -273,18 +335,33 @@ class Replayer(object):
         if nsw >= 1:
             self.ctx.nontriv((" ".join(toks), beh, kind))
         exp = rec["exp"]
-        cat = "version" if exp["page"] == "version" else "help" if exp["page"] not in ("n/a", "none") else \
-              "silent" if exp["outEsc"] == 0 else "handler-" + beh
+        cat = "version" if exp["page"] == "version" else "help" if exp["page"] not in ("n/a", "none", "other") else \
+              "silent" if exp["outEsc"] == 0 else "no-handler" if exp["page"] == "other" else "handler-" + beh
         self.cats[cat] = self.cats.get(cat, 0) + 1
+        case = {"units": units, "beh": beh, "streams": kind, "form": form, "kind": "tlc-run", "history": hist}
         if not same(exp, ev["obs"]):
             self.nmism += 1
             if len(self.mism) < 4000:
-                self.mism.append((ev, form))
+                self.mism.append(([ev], case))
         elif self.n % 23 == 0 or (ev["hasBase"] and self.n % 5 == 0):
             if len(self.sampled) < 6000:
-                self.sampled.append((ev, form))
+                self.sampled.append(([ev], case))
         if self.first is None and nsw >= 2:
             self.first = {"line": " ".join(toks), "handler": beh, "ansi_streams": kind, "model_run": exp}
+
+    def __call__(self, line):
+        rec = T.parse_emit(line)
+        if rec is None:
+            return False
+        if rec["prev"]["has"]:  # two runs on one fresh application object
+            box = AppBox()
+            self.one(rec["prev"], box)
+            self.one(rec, box)
+            self.cats["second-run"] = self.cats.get("second-run", 0) + 1
+            return True
+        if self.box is None or len(self.box.history) >= self.WINDOW:
+            self.box = AppBox()
+        self.one(rec, self.box)
         return True
 
 
@@ -295,11 +372,11 @@ def U(k, *t):
 
 def rand_base(rng):
     """a valid line: command path, then the command's own arguments / options, maybe '--' and more values"""
-    cmd = rng.choice(["pkg", "pkg", "srv", "srv add", "srv list", "top", "", "grp", "grp one", "lazy"])
+    cmd = rng.choice(["pkg", "pkg", "srv", "srv add", "srv list", "top", "", "grp", "grp one", "lazy", "hub", "hub"])
     units = [U("name", n) for n in cmd.split(" ") if n]
     body = []
     if cmd == "pkg":
-        body.append(U("pos", rng.choice(["x", "lib", "0"])))
+        body.append(U("pos", rng.choice(["x", "lib", "0", ""])))
         if rng.random() < 0.5:
             body.append(U("own", *rng.choice([["--opt", "v"], ["--opt=v"], ["-o", "v"], ["-ov"]])))
         if rng.random() < 0.3:
@@ -356,8 +433,10 @@ def rand_line(rng):
 Q = "quick"
 MODEL_RUNS = {
     Q: [("MC_Switches_quick_pairs.cfg", "two-switches", 5000), ("MC_Switches_quick_combos.cfg", "one-switch-all-streams-ok-code", 5000),
-        ("MC_Switches_quick_raise.cfg", "two-switches-raising-handler", 400)],
+        ("MC_Switches_quick_raise.cfg", "two-switches-raising-handler", 200),
+        ("MC_Switches_two_runs.cfg", "two-runs-on-one-application", 1500)],
     "thorough": [("MC_Switches_quick_combos.cfg", "one-switch-all-streams-ok-code", 5000),
+                 ("MC_Switches_two_runs.cfg", "two-runs-on-one-application", 1500),
                  ("MC_Switches_quick_pairs2.cfg", "two-switches-ansi-streams", 2000),
                  ("MC_Switches_thorough_pairs.cfg", "two-switches-all-bases", 50000),
                  ("MC_Switches_thorough_raise.cfg", "two-switches-raising-handler", 6000),
@@ -385,7 +464,8 @@ def run(ctx):
         "application page or the page of the built-in default command; with quiet nothing; help and version together: either text",
         "--ansi together with --no-ansi, and --verbose[=n], are not claimed",
         "decoration is judged on styled text (tagged lines, help / version pages); COLUMNS=120",
-        "a fresh application per run (state carried between runs is C17's subject)",
+        "one application object serves several runs (windows of 8 TLC runs, two-run behaviours, random sessions of 1-5 lines): "
+        "the model keeps nothing between runs",
         "'without invoking the command's handler': no handler method is called and the run does not depend on the command "
         "having a handler; whether a handler factory is run is recorded (built) and compared with the model, not claimed",
     ]
@@ -415,29 +495,34 @@ def _run(ctx, quick):
     ctx.extra["tlc_runs_replayed"] = rp.n
     ctx.extra["tlc_runs_by_outcome"] = rp.cats
     ctx.extra["tlc_runs_not_reproduced"] = rp.nmism
-    for cat in ("version", "help", "silent", "handler-ok", "handler-raise", "handler-code"):
+    for cat in ("version", "help", "silent", "handler-ok", "handler-meddle", "handler-code", "handler-raise", "no-handler", "second-run"):
         if rp.cats.get(cat, 0) < 20:
             raise T.MachineryError("model runs of kind '%s' are (nearly) missing: %r" % (cat, rp.cats))
     ctx.exhaustive = True
     if rp.first:
         ctx.sample(rp.first)
 
-    traces = [[ev] for ev, _ in rp.mism + rp.sampled]
-    cases = [{"units": ev["units"], "beh": ev["beh"], "streams": ev["streams"], "form": f, "kind": "tlc-run"} for ev, f in rp.mism + rp.sampled]
+    traces = [t for t, _ in rp.mism + rp.sampled]
+    cases = [c for _, c in rp.mism + rp.sampled]
     rng = ctx.rng
     n = 3000 if quick else 40000
-    for k in range(n):
-        units = rand_line(rng)
-        beh = rng.choice(["ok"] * 7 + ["code"] * 4 + ["raise"])  # a raising run costs ~12 ms (the error report)
-        kind = rng.choice(["none", "none", "both", "out"])
-        form = rng.choice(["string", "argv"])
-        ev = event(units, beh, kind, form)
-        traces.append([ev])
-        cases.append({"units": units, "beh": beh, "streams": kind, "form": form, "kind": "random-line"})
-        ctx.count()
-        if any(u["k"] == "sw" for u in units):
-            ctx.nontriv((" ".join(tokens_of(units)), beh, kind))
-    ctx.sample({"random_line": " ".join(tokens_of(cases[-1]["units"])), "case": cases[-1]})
+    done = 0
+    while done < n:  # sessions: 1-5 lines run one after the other on ONE application object
+        box, tr, runs = AppBox(), [], []
+        for _ in range(rng.choice([1, 1, 2, 3, 5])):
+            units = rand_line(rng)
+            beh = rng.choice(["ok"] * 6 + ["code"] * 3 + ["meddle"] * 3 + ["raise"])  # a raising run costs ~12 ms (the error report)
+            kind = rng.choice(["none", "none", "both", "out", "err"])
+            form = rng.choice(["string", "argv"])
+            tr.append(event(units, beh, kind, form, box))
+            runs.append({"units": units, "beh": beh, "streams": kind, "form": form})
+            ctx.count()
+            done += 1
+            if any(u["k"] == "sw" for u in units):
+                ctx.nontriv((" ".join(tokens_of(units)), beh, kind))
+        traces.append(tr)
+        cases.append({"session": runs, "kind": "random-session"})
+    ctx.sample({"random_session": [" ".join(tokens_of(r["units"])) for r in cases[-1]["session"]], "case": cases[-1]})
     ctx.validate(SPEC, "SwitchesTrace", "SwitchesTrace.cfg", traces, cases=cases, name="recorded-runs")
 
 
@@ -451,7 +536,13 @@ def replay(ctx, path):
     cols = os.environ.get("COLUMNS")
     os.environ["COLUMNS"] = "120"
     try:
-        ev = event(c["units"], c["beh"], c["streams"], c.get("form", "string"))
+        box = AppBox()
+        if "session" in c:
+            tr = [event(r["units"], r["beh"], r["streams"], r.get("form", "string"), box) for r in c["session"]]
+        else:
+            for h in c.get("history", []):  # what the application object had served before
+                observe(h["units"], h["beh"], h["streams"], h.get("form", "string"), box)
+            tr = [event(c["units"], c["beh"], c["streams"], c.get("form", "string"), box)]
     finally:
         if cols is None:
             os.environ.pop("COLUMNS", None)
@@ -460,5 +551,5 @@ def replay(ctx, path):
     ctx.count()
     ctx.nontriv("replay")
     ctx.nontriv("replay2")
-    ctx.sample({"line": " ".join(tokens_of(c["units"])), "case": c})
-    ctx.validate(SPEC, "SwitchesTrace", "SwitchesTrace.cfg", [[ev]], cases=[c], name="replay")
+    ctx.sample({"case": c})
+    ctx.validate(SPEC, "SwitchesTrace", "SwitchesTrace.cfg", [tr], cases=[c], name="replay")
